@@ -449,6 +449,11 @@ def scrape_counter():
     iv = read("idlc_mir_passes/src/interface_verifier.rs")
     facts["verifier_rejects_second_objarr"] = "has more than one input object array" in iv and "has more than one output object array" in iv
     facts["verifier_small_objstruct_in_array"] = len(re.findall(r"if let Type::Struct\(\s*Struct::Big\(s\) \| Struct::Small\(s\),?\s*\) = t", iv)) == 2
+    st = read("idlc_ast_passes/src/idl_store.rs")
+    facts["symbols_one_namespace"] = bool(re.search(r"assert!\(\s*!taken_by_other_kind", st)) and all(
+        x in st for x in ("Node::Struct(s) => map.contains_key(&Symbol::Const(s.ident.to_string()))",
+                          "Node::Interface(i) => map.contains_key(&Symbol::Const(i.ident.to_string()))",
+                          "Node::Const(c) => map.contains_key(&Symbol::Struct(c.ident.to_string()))"))
     facts["counter_checked"] = checked
     facts["counter_limit"] = int(limit.group(1)) if (limit and checked) else 255
     if checked == unchecked:
@@ -462,9 +467,10 @@ def render_counter(facts):
             "(* idlc/src/lib.rs: does Language::generate run the InterfaceVerifier? *)\nDefinition lib_runs_interface_verifier : bool := %s.\n"
             "(* interface_verifier.rs: a second object array of one direction / an input array of a small object struct *)\n"
             "Definition verifier_rejects_second_objarr : bool := %s.\nDefinition verifier_small_objstruct_in_array : bool := %s.\n"
+            "(* idl_store.rs gather_symbols_from_ast: types and constants share one namespace *)\nDefinition symbols_one_namespace : bool := %s.\n"
             % ("true" if facts["counter_checked"] else "false", facts["counter_limit"], "true" if facts["struct_size_checked"] else "false",
                "true" if facts["lib_runs_interface_verifier"] else "false", "true" if facts["verifier_rejects_second_objarr"] else "false",
-               "true" if facts["verifier_small_objstruct_in_array"] else "false"))
+               "true" if facts["verifier_small_objstruct_in_array"] else "false", "true" if facts["symbols_one_namespace"] else "false"))
 
 
 def scrape_consts():
